@@ -114,6 +114,17 @@ def run_check(pid, module, tier="quick", fresh=False):
     fatal = None
     try:
         module.run(ctx)
+        if tier == "thorough":
+            if hasattr(module, "thorough"):
+                module.thorough(ctx)
+            wn = getattr(module, "WITNESSES", None)
+            if wn:
+                from . import witness
+                ctx.rule(pid + ".W", "compile-fail witnesses (with compiling twins) for the type-level part of the property")
+                for name, (ok, bad, detail) in witness.run(wn).items():
+                    ctx.instance(pid + ".W", "witness %s: %d doctests ok, %d failed" % (name, ok, bad))
+                    ctx.oblige(ok >= 2 and bad == 0, pid + ".W", "witness:" + name,
+                               "a program that violates the typestate now compiles (or the witness's twin stopped compiling): " + detail[-300:], "witness/src/lib.rs")
     except AnchorLost as e:
         fatal = "ANCHOR-LOST: %s" % e
     # floors: fail closed
@@ -156,6 +167,8 @@ def run_check(pid, module, tier="quick", fresh=False):
         replay_paths.append(path)
         out.append("VIOLATION property=%s replay=%s" % (pid, path))
         out.append("[nvs]   %s: %s" % (kind, payload.get("msg") or payload.get("error")))
+        if payload.get("key"):
+            out.append("[nvs]     key %s" % payload["key"])
         if payload.get("where"):
             out.append("[nvs]     at %s" % payload["where"])
 
